@@ -287,7 +287,7 @@ def _ignore_length(framing, body, cl, cuts):
 
 
 # ---------------------------------------------------------------- coding state does not leak between exchanges
-def _coded_then_plain(kind_i, p1, fr2, b2, cuts):
+def _coded_then_plain(kind_i, p1, fr2, b2, cuts, raw2=False):
     """A content-coded response followed by an identity response on the same Stream: the second body is delivered verbatim."""
     kind = pick(['gzip', 'zlib', 'raw'], kind_i)
     p1, b2 = fixlen(p1, 2), fixlen(b2, 3)
@@ -310,7 +310,7 @@ def _coded_then_plain(kind_i, p1, fr2, b2, cuts):
             return False
         conn.data = conn.data + m2
         resp2 = run(st.read_response())
-        run(st.read_body(req, resp2, file=out2))
+        run(st.read_body(req, resp2, file=out2, raw=raw2 and fr2 == 0))      # raw: body bytes as on the wire (= b2 under length framing)
     except zmodel.OutOfModel:
         return True
     hit('second-plain')
@@ -318,12 +318,12 @@ def _coded_then_plain(kind_i, p1, fr2, b2, cuts):
 
 
 # ---------------------------------------------------------------- content coding removed
-def _content_coding(kind_i, payload, framing, cuts):
+def _content_coding(kind_i, payload, framing, cuts, xname=False):
     kind = pick(['gzip', 'zlib', 'raw'], kind_i)
     payload = fixlen(payload, 3)
     D.zlib = zmodel
     enc = zmodel.encode(kind, [payload])
-    ce = b'gzip' if kind == 'gzip' else b'deflate'
+    ce = (b'x-gzip' if xname else b'gzip') if kind == 'gzip' else b'deflate'
     if framing == 0:
         wire = b'HTTP/1.1 200 OK\r\nContent-Encoding: ' + ce + b'\r\nContent-Length: ' + str(len(enc)).encode() + b'\r\n\r\n' + enc
     elif framing == 1:
@@ -421,19 +421,20 @@ HARNESSES = [
       funcs=['wpull/protocol/http/stream.py:Stream.read_body', 'wpull/protocol/http/stream.py:Stream.get_read_strategy'],
       doc='--ignore-length: a wrong Content-Length is replaced by read-until-close, but a chunked body is still de-chunked and a 304 '
           'still has no body (the override applies to length framing only); the connection is closed afterwards'),
-    H('coded_then_plain', '_coded_then_plain', 'kind_i: int, p1: bytes, fr2: int, b2: bytes, ' + _CUTS,
+    H('coded_then_plain', '_coded_then_plain', 'kind_i: int, p1: bytes, fr2: int, b2: bytes, ' + _CUTS + ', raw2: bool',
       pre={'quick': ['0 <= kind_i <= 2 and len(p1) <= 1 and 0 <= fr2 <= 1 and len(b2) <= 1 and len(cuts) <= 1'],
            'thorough': ['0 <= kind_i <= 2 and len(p1) <= 2 and 0 <= fr2 <= 1 and len(b2) <= 3 and len(cuts) <= 3']},
       parts=[{'tag': 'k%d_f%d' % (k, f), 'fix': {'kind_i': str(k), 'fr2': str(f)}} for k in range(3) for f in range(2)],
-      timeout={'quick': 250, 'thorough': 1200}, samples=[(0, b'a', 0, b'xy', []), (1, b'a', 1, b'x', [2])], need=['second-plain'],
+      timeout={'quick': 250, 'thorough': 1200}, samples=[(0, b'a', 0, b'xy', [], False), (1, b'a', 1, b'x', [2], False), (0, b'a', 0, b'xy', [], True)], need=['second-plain'],
       funcs=['wpull/protocol/http/stream.py:Stream._setup_decompressor', 'wpull/protocol/http/stream.py:Stream.read_body'],
       doc='a gzip / deflate coded response followed by an identity response on the same Stream (keep-alive): the decoder of the first '
-          'exchange is not applied to the second, whose symbolic body is delivered verbatim'),
-    H('content_coding', '_content_coding', 'kind_i: int, payload: bytes, framing: int, ' + _CUTS,
+          'exchange is not applied to the second, whose symbolic body is delivered verbatim - also when the second is read with raw=True'),
+    H('content_coding', '_content_coding', 'kind_i: int, payload: bytes, framing: int, ' + _CUTS + ', xname: bool',
       pre={'quick': ['0 <= kind_i <= 2 and len(payload) <= 1 and 0 <= framing <= 2 and len(cuts) <= 2'],
            'thorough': ['0 <= kind_i <= 2 and len(payload) <= 3 and 0 <= framing <= 2 and len(cuts) <= 3']},
-      parts=[{'tag': 'k%d_f%d' % (k, f), 'fix': {'kind_i': str(k), 'framing': str(f)}} for k in range(3) for f in range(3)],
-      timeout={'quick': 250, 'thorough': 1500}, samples=[(0, b'a', 0, [3]), (2, b'ab', 1, [1, 1])], need=['decoded'],
+      parts=[{'tag': 'k%d_f%d' % (k, f), 'fix': {'kind_i': str(k), 'framing': str(f), 'xname': 'False'}} for k in range(3) for f in range(3)]
+      + [{'tag': 'xgzip_f%d' % f, 'fix': {'kind_i': '0', 'framing': str(f), 'xname': 'True'}, 'pre': ['len(cuts) <= 1']} for f in range(3)],
+      timeout={'quick': 250, 'thorough': 1500}, samples=[(0, b'a', 0, [3], False), (2, b'ab', 1, [1, 1], False), (0, b'a', 0, [], True)], need=['decoded'],
       funcs=['wpull/protocol/http/stream.py:Stream._setup_decompressor', 'wpull/protocol/http/stream.py:Stream._decompress_data'],
-      doc='gzip / deflate content codings (zlib model, stored block) are removed from the body under all three framings and symbolic cuts'),
+      doc='gzip / x-gzip / deflate content codings (zlib model, stored block) are removed from the body under all three framings and symbolic cuts'),
 ]
